@@ -45,7 +45,17 @@ pub fn nontrivial(case: &Case) -> bool {
 
 pub fn gen_checked(ctx: &mut Ctx, rng: &mut crate::util::Rng, exact_only: bool) -> Option<Case> {
     let mut rejected = 0u64;
-    let case = if exact_only { gen_exact(rng, ctx.size()) } else { gen_mixed(rng, ctx.size(), &mut rejected) };
+    let scale_free = matches!(ctx.prop.as_str(), "C01" | "C02" | "C04" | "C05" | "C13" | "C14");
+    let case = if exact_only {
+        gen_exact(rng, ctx.size())
+    } else if scale_free {
+        gen_mixed_scaled(rng, ctx.size(), &mut rejected)
+    } else {
+        gen_mixed(rng, ctx.size(), &mut rejected)
+    };
+    if case.desc.contains(" scaled by 2^") {
+        ctx.cnt("cases_at_extreme_magnitude_2^+-40..200", 1);
+    }
     ctx.cnt("generator_rejections_outside_robust_domain", rejected);
     ctx.cnt(&format!("family:{}", case.family), 1);
     if let Err(e) = self_test(&case) {
